@@ -353,7 +353,7 @@ func Run(c *core.Ctx) core.FinishOpts {
 			continue
 		}
 		if res.Panicked() || res.Exit > 128 {
-			site, msg := res.PanicSite()
+			site, msg := panicSite(res)
 			k := "panic:" + site
 			if selftest && !strings.Contains(site, "selftest") {
 				k = "selftest-unattributed:" + k
@@ -472,4 +472,61 @@ func trimBytes(b []byte, n int) []byte {
 		return append(append([]byte{}, b[:n]...), []byte("...")...)
 	}
 	return b
+}
+
+// panicSite is cli.Result.PanicSite, except for a panic that was recovered and raised again
+// (SimpleGroupBy.Run re-panics whatever its emit loop panicked with): then the trace of the
+// crashing goroutine starts with the re-raising deferred function, and the frame where the panic
+// originated is the first octosql frame below the last runtime `panic(` frame. Using the origin
+// keeps one defect under one key whether or not a GROUP BY sits in the plan.
+func panicSite(res cli.Result) (string, string) {
+	site, msg := res.PanicSite()
+	if !strings.Contains(msg, "[recovered]") {
+		return site, msg
+	}
+	lines := strings.Split(string(res.Stderr), "\n")
+	start := -1
+	for i, l := range lines {
+		if strings.HasPrefix(l, "goroutine ") {
+			start = i
+			break
+		}
+	}
+	if start < 0 {
+		return site, msg
+	}
+	lastPanic := -1
+	end := len(lines)
+	for i := start + 1; i < len(lines); i++ {
+		if strings.TrimSpace(lines[i]) == "" {
+			end = i
+			break
+		}
+		if strings.HasPrefix(lines[i], "panic(") {
+			lastPanic = i
+		}
+	}
+	for i := lastPanic + 1; lastPanic >= 0 && i+1 < end; i++ {
+		l := strings.TrimSpace(lines[i])
+		if !strings.HasPrefix(l, "github.com/cube2222/octosql/") {
+			continue
+		}
+		fn := l
+		if j := strings.LastIndex(fn, "("); j > 0 {
+			fn = fn[:j]
+		}
+		fn = strings.TrimPrefix(fn, "github.com/cube2222/octosql/")
+		file := strings.TrimSpace(lines[i+1])
+		if j := strings.Index(file, " +0x"); j > 0 {
+			file = file[:j]
+		}
+		if j := strings.LastIndex(file, ":"); j > 0 {
+			file = file[:j]
+		}
+		if j := strings.Index(file, "/repo/"); j >= 0 {
+			file = file[j+len("/repo/"):]
+		}
+		return file + ":" + fn, msg
+	}
+	return site, msg
 }
